@@ -286,6 +286,52 @@ func realFiles(a filesArgs) any {
 		names = append(names, f)
 	}
 	m, err := dotenv.GetEnvFromFile(a.Lookup, names)
+	res := envFilesOutcome(m, err)
+	// metamorphic reference: the same files folded through the string entry point, the caller's
+	// environment first, the variables of earlier files second
+	acc := map[string]string{}
+	var want map[string]any
+	for _, c := range a.Files {
+		fm, ferr := dotenv.UnmarshalWithLookup(strings.TrimPrefix(c, "\uFEFF"), func(k string) (string, bool) {
+			if v, ok := a.Lookup[k]; ok {
+				return v, true
+			}
+			v, ok := acc[k]
+			return v, ok
+		})
+		if ferr != nil {
+			want = map[string]any{"err": dotenvErrClass(ferr), "map": copyMap(acc)}
+			break
+		}
+		for k, v := range fm {
+			acc[k] = v
+		}
+	}
+	if want == nil {
+		want = map[string]any{"ok": acc}
+	}
+	if !reflect.DeepEqual(mustRoundTrip(res), mustRoundTrip(want)) {
+		res["foldDiffers"] = want
+	}
+	return res
+}
+
+func copyMap(m map[string]string) map[string]string {
+	c := map[string]string{}
+	for k, v := range m {
+		c[k] = v
+	}
+	return c
+}
+
+func mustRoundTrip(v any) any {
+	b, _ := json.Marshal(v)
+	var x any
+	json.Unmarshal(b, &x)
+	return x
+}
+
+func envFilesOutcome(m map[string]string, err error) map[string]any {
 	if err != nil {
 		// the wrapped parser error keeps its class; the map returned with an error is the one accumulated so far
 		var inner error = err
@@ -373,6 +419,11 @@ func init() {
 		Judge: func(args, real, drv json.RawMessage) *core.Verdict {
 			if v := core.CrashVerdict(real); v != nil {
 				return v
+			}
+			var r map[string]json.RawMessage
+			json.Unmarshal(real, &r)
+			if w, bad := r["foldDiffers"]; bad {
+				return core.Fail("env-files:not-a-fold-of-parse", fmt.Sprintf("GetEnvFromFile = %s but folding UnmarshalWithLookup over the files (caller environment first, earlier files second) gives %s", real, w))
 			}
 			if !core.CanonEqual(real, drv) {
 				return core.Disagree("Dotenv.fromFiles ≠ dotenv.GetEnvFromFile")
